@@ -14,6 +14,7 @@ import (
 )
 
 type evalCtx struct {
+	shadow  map[string]int // names bound by a binder of the contract language, with nesting depth
 	e       *Engine
 	s       *State
 	env     map[string]Value
@@ -50,6 +51,12 @@ func (c *evalCtx) withHeap(f func() Value) Value {
 }
 
 func (c *evalCtx) lookup(name string) (Value, bool) {
+	// a variable bound inside the contract expression (forall, mktuple, iterate ...) hides a program variable of the same name
+	if c.shadow[name] > 0 {
+		if v, ok := c.env[name]; ok {
+			return v, true
+		}
+	}
 	if c.inOld && c.oldEnv != nil {
 		if v, ok := c.oldEnv[name]; ok {
 			return v, true
@@ -612,6 +619,7 @@ func (c *evalCtx) evalCall(n *ast.CallExpr) Value {
 		if lo.IsConst() && hi.IsConst() && new(big.Int).Sub(hi.Val, lo.Val).Cmp(big.NewInt(64)) <= 0 {
 			var cs []*Term
 			saved, had := c.env[id.Name]
+			c.pushBound(id.Name)
 			for k := new(big.Int).Set(lo.Val); k.Cmp(hi.Val) < 0; k = new(big.Int).Add(k, bigOne) {
 				c.env[id.Name] = VInt{IntC(k)}
 				cs = append(cs, c.evalBool(n.Args[3]))
@@ -621,6 +629,7 @@ func (c *evalCtx) evalCall(n *ast.CallExpr) Value {
 			} else {
 				delete(c.env, id.Name)
 			}
+			c.popBound(id.Name)
 			if fname == "forall" {
 				return VBool{And(cs...)}
 			}
@@ -629,6 +638,7 @@ func (c *evalCtx) evalCall(n *ast.CallExpr) Value {
 		boundSeq++
 		bv := Bound(fmt.Sprintf("%s$%d", id.Name, boundSeq), SInt)
 		saved, had := c.env[id.Name]
+		c.pushBound(id.Name)
 		c.env[id.Name] = VInt{bv}
 		body := c.evalBool(n.Args[3])
 		if had {
@@ -636,6 +646,7 @@ func (c *evalCtx) evalCall(n *ast.CallExpr) Value {
 		} else {
 			delete(c.env, id.Name)
 		}
+		c.popBound(id.Name)
 		rng := And(Le(lo, bv), Lt(bv, hi))
 		if fname == "forall" {
 			return VBool{Forall([]*Term{bv}, Implies(rng, body))}
@@ -650,6 +661,7 @@ func (c *evalCtx) evalCall(n *ast.CallExpr) Value {
 		}
 		cnt := int(nT.Val.Int64())
 		saved, had := c.env[id.Name]
+		c.pushBound(id.Name)
 		el := make([]Value, cnt)
 		for k := 0; k < cnt; k++ {
 			c.env[id.Name] = VInt{Int64C(int64(k))}
@@ -660,6 +672,7 @@ func (c *evalCtx) evalCall(n *ast.CallExpr) Value {
 		} else {
 			delete(c.env, id.Name)
 		}
+		c.popBound(id.Name)
 		return VSpecTuple{el}
 	case "iterate":
 		// iterate(n, i, acc, init, expr): acc := init; for i in 0..n-1 { acc = expr }; acc
@@ -672,6 +685,8 @@ func (c *evalCtx) evalCall(n *ast.CallExpr) Value {
 		cnt := int(nT.Val.Int64())
 		cur := c.eval(n.Args[3])
 		savedI, hadI := c.env[id.Name]
+		c.pushBound(id.Name)
+		c.pushBound(acc.Name)
 		savedA, hadA := c.env[acc.Name]
 		for k := 0; k < cnt; k++ {
 			c.env[id.Name] = VInt{Int64C(int64(k))}
@@ -688,6 +703,8 @@ func (c *evalCtx) evalCall(n *ast.CallExpr) Value {
 		} else {
 			delete(c.env, acc.Name)
 		}
+		c.popBound(id.Name)
+		c.popBound(acc.Name)
 		return cur
 	case "sum":
 		// sum(i, lo, hi, expr) with constant bounds
@@ -698,6 +715,7 @@ func (c *evalCtx) evalCall(n *ast.CallExpr) Value {
 			panic(execError{"contract: sum(i, lo, hi, expr) needs constant bounds"})
 		}
 		saved, had := c.env[id.Name]
+		c.pushBound(id.Name)
 		acc := Int64C(0)
 		for k := lo.Val.Int64(); k < hi.Val.Int64(); k++ {
 			c.env[id.Name] = VInt{Int64C(k)}
@@ -708,6 +726,7 @@ func (c *evalCtx) evalCall(n *ast.CallExpr) Value {
 		} else {
 			delete(c.env, id.Name)
 		}
+		c.popBound(id.Name)
 		return VInt{acc}
 	case "pow2":
 		return VInt{appSimplify("pow2", SInt, []*Term{c.intOf(c.eval(n.Args[0]))})}
@@ -1431,4 +1450,17 @@ func (e *Engine) termPinned(s *State, t *Term) bool {
 		}
 	}
 	return false
+}
+
+func (c *evalCtx) pushBound(name string) {
+	if c.shadow == nil {
+		c.shadow = map[string]int{}
+	}
+	c.shadow[name]++
+}
+
+func (c *evalCtx) popBound(name string) {
+	if c.shadow[name] > 0 {
+		c.shadow[name]--
+	}
 }
